@@ -248,19 +248,13 @@ def summ(x):
 
 
 def run(chk: Check):
-    chk.rule = ('as C04 (grids of 1-60 cells per axis with/without altitude and time axes; 2-9 points: interior, on '
-                'grid lines, corners, lowest line, repeated, along meridians/parallels, corner-to-corner, '
-                'southward/westward, one antimeridian crossing; 0-3 state / integrated variables). non-trivial = '
-                'some segment crosses at least one grid line, touches a grid line or crosses the antimeridian')
-    chk.trusted += ['harness/c05.py + harness/c04.py: correspondence, generators, brute-force / dense-sampling oracle',
-                    'pyproj/PROJ WGS-84 inverse geodesic (oracle for dist)',
-                    'numpy semantics of searchsorted/sort/repeat/NaN padding as unrolled to lists in C04_Model.v']
+    c04.describe(chk)
     chk.assumptions += ['closed-cell reading: a piece running along a grid line may be attributed to either adjacent '
-                        'cell; a point on the lowest line of an axis belongs to the first cell',
-                        'real-vs-binary64 gap of the model is not proved (bounded by the correspondence)']
+                        'cell; a point on the lowest line of an axis belongs to the first cell']
     c04.note_source(chk)
     chk.coq_props('props/C05_Props.v')
-    cases = c04.load_corpus('C05') + [c04.gen_case(chk.rng) for _ in range(chk.n(1000, 12000))]
+    c04.translator_tie(chk, 'C05_Link.v')
+    cases = c04.load_corpus('C05') + [c04.gen_case(chk.rng) for _ in range(chk.n(1000, 8000))]
     check_cases(chk, cases)
 
 
@@ -286,6 +280,11 @@ def check_cases(chk: Check, cases):
             chk.fail(desc, {'case': case, 'impl': {k: out[k] for k in ('lat', 'lon', 'alt', 'time')},
                             'impl_segment_of_piece': out['states'][-1], 'impl_share': out['ints'][-1]},
                      signature=sig)
+        for desc in r['probes']:
+            chk.fail(desc, {'case': case}, signature=None)
+        c04.check_twin(chk, r, flags, c05_oracle, compare_cells, 'C04_Model.geometry',
+                       lambda o: {'impl': {k: o[k] for k in ('lat', 'lon', 'alt', 'time')},
+                                  'impl_segment_of_piece': o['states'][-1], 'impl_share': o['ints'][-1]})
         if r.get('geo') is None:
             continue
         bad = compare_cells(r)
@@ -298,6 +297,7 @@ def check_cases(chk: Check, cases):
 def replay(chk: Check, rp):
     c04.note_source(chk)
     chk.coq_props('props/C05_Props.v')
+    c04.translator_tie(chk, 'C05_Link.v')
     case = (rp.get('case') or {}).get('case')
     if case:
         check_cases(chk, [case])
